@@ -19,7 +19,8 @@ import numpy
 PROPERTY = "C16"
 LEVEL = "exploration"
 NEED_EXT = False
-REQUIRED = ["enumerate", "str", "debug.outputs_unchanged", "debug.records", "debug.chain", "debug.copy_history", "dot.parsed",
+REQUIRED = ["enumerate", "str", "debug.outputs_unchanged", "debug.records", "debug.chain", "debug.copy_history", "debug.after_refused_predict",
+            "debug.refused_alter.refused", "dot.parsed",
             "dot.reachability"]
 RULE = ("pipelines drawn from the grammar with depth <= 3 (thorough 4), width <= 3, over DataFrame / ndarray / "
         "list-of-names schemas; only programs scikit-learn itself fits are in the domain; non-trivial = >= 3 estimators with a "
@@ -28,13 +29,95 @@ ASSUMPTIONS = ["the DOT reader covers the subset pipeline2dot emits (node statem
                "ports, edges a[:port] -> b[:port])",
                "ColumnTransformer children are enumerated from `transformers` (the unfitted specification), as the "
                "library does; their debug records are a known finding, not judged per child",
-               "'drop' transformers are outside the supported grammar (the property lists passthrough only)"]
+               "'drop' transformers and TransformedTargetRegressor are outside the supported grammar (the property lists "
+               "passthrough only); they appear only in the refused-alteration cases, where the one thing judged is that a "
+               "pipeline whose alteration was refused keeps answering as before"]
 CASE_TIMEOUT = 300
 
 
 def cases(tier, seed):
     n = 240 if tier == "quick" else 3000
-    return [{"gen": "pipe", "id": "pipe-%d" % i, "sub": seed * 1000003 + i, "tier": tier} for i in range(n)]
+    out = [{"gen": "pipe", "id": "pipe-%d" % i, "sub": seed * 1000003 + i, "tier": tier} for i in range(n)]
+    out += [{"gen": "refused-alter", "id": "refused-alter-%d" % i, "sub": seed * 1000003 + 700000 + i, "tier": tier}
+            for i in range(24 if tier == "quick" else 200)]
+    return out
+
+
+def run_refused_alter(case, ctx):
+    """A fitted pipeline holding, after supported models, an object the enumeration refuses (a 'drop' entry, a
+    TransformedTargetRegressor, a FunctionTransformer is fine): alter_pipeline_for_debugging raises or not - either way the
+    pipeline keeps answering exactly as before."""
+    import pandas
+    from sklearn.compose import ColumnTransformer, TransformedTargetRegressor
+    from sklearn.linear_model import LinearRegression, LogisticRegression
+    from sklearn.pipeline import Pipeline, FeatureUnion
+    from sklearn.preprocessing import StandardScaler, MinMaxScaler
+    from sklearn.decomposition import PCA
+    from mlinsights.helpers.pipeline import alter_pipeline_for_debugging
+    rng = numpy.random.RandomState(case["sub"] % (2 ** 31))
+    n, d = int(rng.randint(20, 60)), int(rng.randint(3, 6))
+    X = rng.randn(n, d)
+    frame = rng.rand() < 0.5
+    data = pandas.DataFrame(X, columns=["c%d" % i for i in range(d)]) if frame else X
+    cols = (lambda idx: ["c%d" % i for i in idx]) if frame else (lambda idx: list(idx))
+    shape = ["ttr-final", "drop-in-ct", "drop-in-nested-ct", "ttr-after-union"][case["sub"] % 4]
+    clf = shape.startswith("drop") and rng.rand() < 0.5
+    y = (X[:, 0] + rng.randn(n) * 0.1 > 0).astype(int) if clf else X[:, 0] * 2 + rng.randn(n) * 0.1
+    fin = LogisticRegression() if clf else LinearRegression()
+    if shape == "ttr-final":
+        pipe = Pipeline([("s", StandardScaler()), ("m", MinMaxScaler()),
+                         ("t", TransformedTargetRegressor(regressor=LinearRegression(), transformer=StandardScaler()))])
+    elif shape == "ttr-after-union":
+        pipe = Pipeline([("u", FeatureUnion([("p", PCA(n_components=2)), ("s", StandardScaler())])),
+                         ("t", TransformedTargetRegressor(regressor=LinearRegression(), func=numpy.arcsinh,
+                                                          inverse_func=numpy.sinh))])
+    elif shape == "drop-in-ct":
+        pipe = Pipeline([("s", StandardScaler().set_output(transform="pandas") if frame else StandardScaler()),
+                         ("ct", ColumnTransformer([("a", MinMaxScaler(), cols(range(d - 1))),
+                                                   ("d", "drop", cols([d - 1]))])), ("f", fin)])
+    else:
+        pipe = Pipeline([("s", StandardScaler().set_output(transform="pandas") if frame else StandardScaler()),
+                         ("p", Pipeline([("ct", ColumnTransformer([("a", MinMaxScaler(), cols(range(1, d))),
+                                                                   ("d", "drop", cols([0]))])),
+                                         ("m", StandardScaler())])), ("f", fin)])
+    cfg = {"shape": shape, "frame": bool(frame), "classifier": bool(clf), "n": n, "d": d}
+    try:
+        pipe.fit(data, y)
+    except Exception:
+        ctx.excluded("refused-alter: scikit-learn refuses the program")
+        return
+    Q = data.iloc[3:15] if frame else data[3:15]
+    methods = [m for m in ("predict", "predict_proba", "decision_function") if hasattr(pipe, m)]
+    before = {m: numpy.asarray(getattr(pipe, m)(Q)) for m in methods}
+    tr_before = numpy.asarray(pipe[:-1].transform(Q))
+    try:
+        alter_pipeline_for_debugging(pipe)
+        outcome = "accepted"
+    except Exception as e:
+        outcome = type(e).__name__
+    ctx.hit("debug.refused_alter." + ("accepted" if outcome == "accepted" else "refused"))
+    cfg["alter"] = outcome
+    for m in methods:
+        try:
+            got = numpy.asarray(getattr(pipe, m)(Q))
+        except Exception as e:
+            ctx.violation("C16/debug/refused-alter/pipeline-broken/%s" % type(e).__name__, "alter_pipeline_for_debugging "
+                          "ended with %s on a %s pipeline; afterwards %s raises %s: %s" % (
+                              outcome, shape, m, type(e).__name__, str(e)[:100]), cfg=cfg)
+            return
+        if not numpy.array_equal(got, before[m]):
+            ctx.violation("C16/debug/refused-alter/output-changed", "after alter_pipeline_for_debugging (%s) %s "
+                          "differs" % (outcome, m), cfg=cfg)
+            return
+    try:
+        tr = numpy.asarray(pipe[:-1].transform(Q))
+        if not numpy.array_equal(tr, tr_before):
+            ctx.violation("C16/debug/refused-alter/output-changed", "after alter_pipeline_for_debugging (%s) the "
+                          "transformers' output differs" % outcome, cfg=cfg)
+    except Exception as e:
+        ctx.violation("C16/debug/refused-alter/pipeline-broken/%s" % type(e).__name__, "after alter_pipeline_for_debugging "
+                      "(%s) the transformer part raises: %s" % (outcome, str(e)[:100]), cfg=cfg)
+    ctx.cls("refused-alter=" + shape)
 
 
 # ---------------------------------------------------------------- generator
@@ -263,6 +346,8 @@ class Dot:
 
 
 def run_case(case, ctx):
+    if case["gen"] == "refused-alter":
+        return run_refused_alter(case, ctx)
     from sklearn.base import clone
     from sklearn.pipeline import Pipeline, FeatureUnion
     from sklearn.compose import ColumnTransformer
@@ -551,6 +636,52 @@ def run_case(case, ctx):
                     if a != b:
                         ctx.violation(K + "debug/refused-input/other-exception", "%s on an input the pipeline refuses "
                                       "(%s): untouched pipeline -> %s, altered pipeline -> %s" % (m, bname, a, b),
+                                      cfg=cfg)
+                        break
+    # ---- history with a refused call: a predict the FINAL estimator refuses (a missing value the transformers let
+    # through), then the other methods on fresh batches: each is answered as before and recorded, the steps chain
+    if calls and final is not None and "predict" in methods and before["predict"] is not None:
+        Xnan = (data.iloc[5:17] if schema != "array" else data[5:17]).copy()
+        if schema != "array":
+            Xnan.iloc[0, 0] = numpy.nan
+        else:
+            Xnan[0, 0] = numpy.nan
+        try:
+            pipe.predict(Xnan)
+            refused = False
+        except Exception:
+            refused = True
+        if refused:
+            steps = [s_ for _, s_ in pipe.steps if not isinstance(s_, str)]
+            for m in [mm for mm in methods if mm != "predict" and before[mm] is not None] + ["predict"]:
+                Xf = (data.iloc[5:17] if schema != "array" else data[5:17]).copy()
+                try:
+                    out = numpy.asarray(getattr(pipe, m)(Xf))
+                except Exception as e:
+                    ctx.violation(K + "debug/after-refused-predict/raised/%s" % type(e).__name__, "%s after a refused "
+                                  "predict: %s" % (m, str(e)[:120]), cfg=cfg)
+                    break
+                ctx.hit("debug.after_refused_predict")
+                if not numpy.array_equal(out, before[m][1]):
+                    ctx.violation(K + "debug/after-refused-predict/output-changed", "%s differs after a refused "
+                                  "predict" % m, cfg=cfg)
+                    break
+                dbg = getattr(pipe, "_debug", None)
+                if dbg is None or dbg.inputs.get(m) is not Xf or not numpy.array_equal(
+                        numpy.asarray(dbg.outputs.get(m)), out):
+                    ctx.violation(K + "debug/after-refused-predict/pipeline-record-not-last-call/%s" % m,
+                                  "after a predict refused by the final estimator, the pipeline's record for %s is not "
+                                  "its last call" % m, cfg=cfg)
+                    break
+                if len(steps) == len(pipe.steps) and len(steps) >= 2 and m != "transform":
+                    ld, pd_ = getattr(steps[-1], "_debug", None), getattr(steps[-2], "_debug", None)
+                    if ld is None or pd_ is None or m not in ld.inputs or "transform" not in pd_.outputs:
+                        continue
+                    if not numpy.array_equal(numpy.asarray(ld.inputs[m]), numpy.asarray(pd_.outputs["transform"]),
+                                             equal_nan=True) or not numpy.array_equal(numpy.asarray(ld.outputs[m]), out):
+                        ctx.violation(K + "debug/after-refused-predict/steps-do-not-chain/%s" % m,
+                                      "after a predict refused by the final estimator and a call of %s, the final "
+                                      "step's record is not (output of the previous step, output of the pipeline)" % m,
                                       cfg=cfg)
                         break
     # ---- history: the altered pipeline is deep-copied and the copy is fitted again on other rows.  The copy still
